@@ -6,7 +6,7 @@
 From Coq Require Import ZArith List.
 From mathcomp Require Import all_ssreflect all_algebra.
 From SV Require Import Names Rep Complex Homology ListMat SnfCount Rank Betti EulerP RepInv Shapes ShapesReach.
-From SV Require EulerAdd.
+From SV Require EulerAdd EulerCompose.
 
 From SV Require VInv Gen EulerInt.
 
@@ -91,3 +91,22 @@ Theorem C19_integral_is_additive_over_disjoint_unions :
   exists zx zy, Gen.integrate hp x a d = Ok zx /\ Gen.integrate hp y a d = Ok zy /\ Gen.integrate hp u a d = Ok (Z.add zx zy).
 Proof. exact EulerAdd.integrate_additive. Qed.
 Print Assumptions C19_integral_is_additive_over_disjoint_unions.
+
+(* ... AND ON THE CODE'S OWN UNION: for complexes a and c that share no name (with non-negative integer metrics), when
+   a.compose(c) succeeds -- it does for operands that share no points either, C16_compatible_operands_are_composed --
+   the integral of the result is the sum of the integrals of a and c.  (The operands' dictionaries belong to other
+   owners than the new complex: every two distinct complexes, C09.) *)
+Theorem C19_integral_of_a_composition_of_disjoint_complexes :
+  forall a c uid hp hp' d at_ dflt, VInv.vinv a -> VInv.vinv c ->
+  (forall s h, assoc s (r_attr a) = Some h -> fst h <> uid) ->
+  (forall s h, assoc s (r_attr c) = Some h -> fst h <> uid) -> uid <> 0 ->
+  (forall s, containsSimplex a s = true -> containsSimplex c s = false) ->
+  (forall s, containsSimplex a s = true -> exists z, Gen.metric hp a at_ dflt s = Ok z) ->
+  (forall s, containsSimplex c s = true -> exists z, Gen.metric hp c at_ dflt s = Ok z) ->
+  (forall p i, assoc p (r_simp a) = Some (0, i) -> Z.le Z0 (EulerInt.m hp at_ dflt a p)) ->
+  (forall p i, assoc p (r_simp c) = Some (0, i) -> Z.le Z0 (EulerInt.m hp at_ dflt c p)) ->
+  compose hp a c None uid = (hp', d, Ok tt) ->
+  exists za zc, Gen.integrate hp a at_ dflt = Ok za /\ Gen.integrate hp c at_ dflt = Ok zc /\
+                Gen.integrate hp' d at_ dflt = Ok (Z.add za zc).
+Proof. exact EulerCompose.integrate_compose_disjoint. Qed.
+Print Assumptions C19_integral_of_a_composition_of_disjoint_complexes.
